@@ -6,5 +6,6 @@ SEED_UW = {"hwloc__topology_filter_init.0": 24, "hwloc_reset_normal_type_depths.
            "hwloc_connect_special_levels.0": 24, "hwloc_connect_special_levels.1": 24, "hwloc_set_group_depth.0": 24, "hwloc_set_group_depth.1": 24,
            "hwloc_topology_setup_defaults.0": 24, "strlen.0": 24, "strcpy.0": 24, "strdup.0": 24, "hwloc__topology_dup.0": 24, "hwloc__topology_dup.1": 24, "hwloc__topology_dup.2": 24,
            "hwloc_filter_levels_keep_structure.0": 24, "hwloc_filter_levels_keep_structure.1": 24, "hwloc_topology_clear.0": 24}
+for _k in range(10): SEED_UW["vp_seed_build.%d" % _k] = 17
 def seed_uw(**extra):
     d = dict(SEED_UW); d.update(extra); return d
